@@ -475,6 +475,9 @@ def box(v):
         return named_const(v.name)
     if hasattr(v, 'as_val'):
         return v.as_val()
+    if type(v).__name__ == 'FuncRef':
+        return named_const('func@%s:%s' % (v.qualname, getattr(
+            v.node, 'lineno', 0)))
     raise TypeErrorSym('cannot box %r' % (v,))
 
 
@@ -644,6 +647,10 @@ def equal(a, b):
             return other.t == named_const(o.name)
         return False
     ta, tb = type_of(a), type_of(b)
+    if isinstance(a, SSet) and isinstance(b, SSet):
+        return a.arr == b.arr           # array extensionality
+    if isinstance(a, SSet) or isinstance(b, SSet):
+        return False
     if isinstance(a, SSeq) or isinstance(b, SSeq):
         if isinstance(a, (SSeq, tuple, list)) and \
                 isinstance(b, (SSeq, tuple, list)):
